@@ -175,6 +175,12 @@ fn resolve_type(
         })
         .min()
     {
+        if let Some(android) = ast::AndroidTypeKind::from_qualified_name(import_path) {
+            // Imported type is a built-in Android type => stays that built-in
+            type_.kind = ast::TypeKind::AndroidType(android);
+            return;
+        }
+
         if let Some(item_kind) = defined.get(import_path) {
             // Imported type is defined => set resolved item
             type_.kind = ast::TypeKind::ResolvedItem(import_path.to_owned(), item_kind.clone());
